@@ -208,7 +208,7 @@ func TestVerifC11Histories(t *testing.T) {
 func TestVerifC11Adversarial(t *testing.T) {
 	r := vkit.Start(t, "C11", "adversarial", 240*time.Second, 1200*time.Second)
 	defer r.Finish()
-	r.Rule = "honest non-revocation proofs (toy and 1024-bit) x every single-leaf alteration of the non-revocation part (C_r, C_u, each response, every 8th byte of the signed accumulator, key counter, responses deleted/added), every transplant (whole part / signed accumulator / single responses) from another credential of the same key, from the same credential at an older accumulator, from a credential under another key; proofs from a revoked or foreign witness (guard bypassed by building the commitment from a doctored witness); non-trivial = distinct (key, alteration); oracle: rejected (16 verifications: never accepted)"
+	r.Rule = "honest non-revocation proofs (toy and 1024-bit) x every single-leaf alteration of the non-revocation part (C_r, C_u, each response, every 8th byte of the signed accumulator, key counter, responses deleted/added), every transplant (whole part / signed accumulator / single responses) from another credential of the same key, from the same credential at an older accumulator, from a credential under another key; the proof's own accumulator relabelled (later index / time) and signed with another key; every rejected object verified again; proofs from a revoked or foreign witness (guard bypassed by building the commitment from a doctored witness); non-trivial = distinct (key, alteration); oracle: rejected (16 verifications: never accepted)"
 	for _, keyName := range vkit.Pick([]string{"toyB"}, []string{"toyB", "k1024a"}) {
 		k := vfK(keyName)
 		env := vfInstallEnv(t, "C11/adv/"+keyName, r.Seed)
@@ -271,6 +271,31 @@ func TestVerifC11Adversarial(t *testing.T) {
 		add("transplant-sacc", "signed accumulator of another key", func(p *ProofD) {
 			p.NonRevocationProof.SignedAccumulator = vsCloneProof(pO).(*ProofD).NonRevocationProof.SignedAccumulator
 		})
+		// an accumulator the issuer never signed: the accumulator the proof was made against, relabelled
+		// (same nu; later index and / or time) and signed with a key of the attacker's
+		for _, v := range []struct {
+			name   string
+			di, dt int64
+		}{{"same index, later time", 0, 1000}, {"index+5, later time", 5, 1000}, {"identical content", 0, 0}} {
+			v := v
+			add("sacc-self-signed", "signed accumulator relabelled ("+v.name+") and signed with another key", func(p *ProofD) {
+				cp := &revocation.SignedAccumulator{Data: append([]byte{}, honest.NonRevocationProof.SignedAccumulator.Data...), PKCounter: honest.NonRevocationProof.SignedAccumulator.PKCounter}
+				acc, err := cp.UnmarshalVerify(k.Pk)
+				if err != nil {
+					panic(err)
+				}
+				forged := *acc
+				forged.Index += uint64(v.di)
+				forged.Time += v.dt
+				sacc, err := (&forged).Sign(other.Sk)
+				if err != nil {
+					panic(err)
+				}
+				sacc.PKCounter = k.Pk.Counter
+				sacc.Accumulator = nil
+				p.NonRevocationProof.SignedAccumulator = sacc
+			})
+		}
 		add("revocation-attribute-response", "a_response of the revocation attribute +1", func(p *ProofD) { p.AResponses[3] = inc(p.AResponses[3]) })
 		add("revocation-attribute-response", "a_responses of the revocation attribute and attribute 2 swapped", func(p *ProofD) { p.AResponses[3], p.AResponses[2] = p.AResponses[2], p.AResponses[3] })
 		add("nonrev-dropped-from-revocable-proof", "nonrev part removed (must still verify as a plain proof: not an alteration of the nonrev claim)", nil)
@@ -302,6 +327,13 @@ func TestVerifC11Adversarial(t *testing.T) {
 					continue
 				}
 				if ok {
+					acc++
+				}
+				// the same decoded object once more (and through ProofD.Verify): a rejected proof stays rejected
+				var again bool
+				if pan, _ := vkit.Guard(func() {
+					again = (ProofList{q}).Verify([]*gabikeys.PublicKey{k.Pk}, vfContext, vfNonce, false, nil) || q.Verify(k.Pk, vfContext, vfNonce, false)
+				}); !pan && again && !ok {
 					acc++
 				}
 			}
